@@ -214,7 +214,8 @@ theorem absOk_addRrs_inv {a a' : Message.AState} {d : Message.Decoded} {secn : N
     a'.limit = a.limit ∧ a'.reserved = a.reserved ∧ a'.buflen = a.buflen ∧ a'.mode = a.mode ∧
     a'.an.length = a.an.length + (if secn = 1 then rds.length else 0) ∧
     a'.ns.length = a.ns.length + (if secn = 1 then 0 else if secn = 2 then rds.length else 0) ∧
-    a'.ar.length = a.ar.length + (if secn = 1 then 0 else if secn = 2 then 0 else rds.length) := by
+    a'.ar.length = a.ar.length + (if secn = 1 then 0 else if secn = 2 then 0 else rds.length) ∧
+    a'.itemIdx = a.itemIdx + rds.length ∧ Message.endOf d (a.itemIdx + rds.length - 1) = some a'.cur := by
   simp only [Message.absOk] at h
   cases hm : rds.mapM (Message.givenRdata ty cls) with
   | none => rw [hm] at h; cases h
@@ -232,14 +233,14 @@ theorem absOk_addRrs_inv {a a' : Message.AState} {d : Message.Decoded} {secn : N
         split at h
         · rename_i h1
           cases h
-          simp [h1, hl]; omega
+          simp [h1, hl, he]; omega
         · split at h
           · rename_i h1 h2
             cases h
-            simp [h1, h2, hl]; omega
+            simp [h1, h2, hl, he]; omega
           · rename_i h1 h2
             cases h
-            simp [h1, h2, hl]; omega
+            simp [h1, h2, hl, he]; omega
 
 
 
@@ -304,6 +305,14 @@ theorem absNum_template {s s' : State} {t : Template} {a : Message.AState} {n : 
       · show n = (writeAt (Array.replicate n fill) 0 _).size
         simp
 
+/-- the calls after which `absOk` reads the new `cur` off the decoded message -/
+def movesCursor : Op → Bool
+  | .addQuestion _ _ _ => true
+  | .addRr _ _ _ _ _ _ _ _ => true
+  | .addRrset _ _ _ _ _ _ _ _ => true
+  | .clearRrs => true
+  | _ => false
+
 theorem secNum_cases (sec : RrSection) :
     (sec = .answer ∧ Driver.secNum sec = 1) ∨ (sec = .authority ∧ Driver.secNum sec = 2) ∨
     (sec = .additional ∧ Driver.secNum sec = 3) := by cases sec <;> simp [Driver.secNum]
@@ -312,7 +321,8 @@ theorem secNum_cases (sec : RrSection) :
     specification computes (`absOk`; `cur` = the cursor) describes the new writer state -/
 theorem absNum_step (ss : Session) (op : Op) (a a' : Message.AState) (d : Message.Decoded) (hI : I ss.w)
     (hop : OpOK ss op) (hA : AbsNum ss.w a) (hok : (step ss op).1 = .ok ())
-    (habs : Message.absOk a d (Driver.toSpecOp op) = .ok a') (hcur : a'.cur = (step ss op).2.w.cursor) :
+    (habs : Message.absOk a d (Driver.toSpecOp op) = .ok a')
+    (hcur : movesCursor op = true → a'.cur = (step ss op).2.w.cursor) :
     AbsNum (step ss op).2.w a' := by
   have hi := hI.inv
   have lw : ∀ (f : M Unit), (step ss op).2.w = (liftW ss f).2.w → KeepN ss.w (f ss.w).2 → SameAbs a a' →
@@ -409,6 +419,7 @@ theorem absNum_step (ss : Session) (op : Op) (a a' : Message.AState) (d : Messag
   | addQuestion n t c =>
     have hok' : (addQuestion n t c ss.w).1 = .ok () := by rw [← liftW_fst]; exact hok
     have hw : (step ss (.addQuestion n t c)).2.w = (addQuestion n t c ss.w).2 := liftW_w ss _
+    have hcur := hcur rfl
     rw [hw] at hcur ⊢
     cases hq : addQuestion n t c ss.w with
     | mk r s' =>
@@ -450,6 +461,7 @@ theorem absNum_step (ss : Session) (op : Op) (a a' : Message.AState) (d : Messag
   | addRr sec hn o ty cls ttl rd hv =>
     have hok' : (addRrOp sec (resolveHint ss.hvs hn) o ty cls ttl rd { ss.w with hv := hv.map (hvGet ss.hvs) }).1 =
         .ok () := by rw [← withHv_fst]; exact hok
+    have hcur := hcur rfl
     simp only [step] at hcur ⊢
     rw [withHv_w] at hcur ⊢
     cases hq : addRrOp sec (resolveHint ss.hvs hn) o ty cls ttl rd { ss.w with hv := hv.map (hvGet ss.hvs) } with
@@ -462,7 +474,7 @@ theorem absNum_step (ss : Session) (op : Op) (a a' : Message.AState) (d : Messag
       have hk := keepsSect_addRr (resolveHint ss.hvs hn) o ty cls (ttlFrom ttl) rd s1
       rw [h2] at hk
       simp only at hk
-      obtain ⟨g1, g2, g3, g4, g5, g6, g7, g8, g9, g10, g11⟩ := absOk_addRrs_inv habs
+      obtain ⟨g1, g2, g3, g4, g5, g6, g7, g8, g9, g10, g11, _, _⟩ := absOk_addRrs_inv habs
       have hbase := absNum_addRecords (a' := a') (n := 1) (absNum_hv hA (hv.map (hvGet ss.hvs))) h1 e2 hk hs' g1 g2 g3 g4
         (by rcases secNum_cases sec with ⟨rfl, h⟩ | ⟨rfl, h⟩ | ⟨rfl, h⟩ <;> simp [h, g9])
         (by rcases secNum_cases sec with ⟨rfl, h⟩ | ⟨rfl, h⟩ | ⟨rfl, h⟩ <;> simp [h, g10])
@@ -472,6 +484,7 @@ theorem absNum_step (ss : Session) (op : Op) (a a' : Message.AState) (d : Messag
   | addRrset sec hn o ty cls ttl rds hv =>
     have hok' : (addRrsetOp sec (resolveHint ss.hvs hn) o ty cls ttl rds { ss.w with hv := hv.map (hvGet ss.hvs) }).1 =
         .ok () := by rw [← withHv_fst]; exact hok
+    have hcur := hcur rfl
     simp only [step] at hcur ⊢
     rw [withHv_w] at hcur ⊢
     cases hq : addRrsetOp sec (resolveHint ss.hvs hn) o ty cls ttl rds { ss.w with hv := hv.map (hvGet ss.hvs) } with
@@ -486,7 +499,7 @@ theorem absNum_step (ss : Session) (op : Op) (a a' : Message.AState) (d : Messag
       have hk := keepsSect_addRrset o ty cls (ttlFrom ttl) rds (resolveHint ss.hvs hn) 0 s1
       rw [h2] at hk
       simp only at hk
-      obtain ⟨g1, g2, g3, g4, g5, g6, g7, g8, g9, g10, g11⟩ := absOk_addRrs_inv habs
+      obtain ⟨g1, g2, g3, g4, g5, g6, g7, g8, g9, g10, g11, _, _⟩ := absOk_addRrs_inv habs
       have hbase := absNum_addRecords (a' := a') (n := n) (absNum_hv hA (hv.map (hvGet ss.hvs))) h1 e2 hk hs' g1 g2 g3 g4
         (by rcases secNum_cases sec with ⟨rfl, h⟩ | ⟨rfl, h⟩ | ⟨rfl, h⟩ <;> simp [h, g9, hn'])
         (by rcases secNum_cases sec with ⟨rfl, h⟩ | ⟨rfl, h⟩ | ⟨rfl, h⟩ <;> simp [h, g10, hn'])
@@ -496,6 +509,7 @@ theorem absNum_step (ss : Session) (op : Op) (a a' : Message.AState) (d : Messag
   | clearRrs =>
     simp only [Driver.toSpecOp, Message.absOk, Except.ok.injEq] at habs; subst habs
     have hw : (step ss .clearRrs).2.w = (clearRrs ss.w).2 := liftW_w ss _
+    have hcur := hcur rfl
     rw [hw] at hcur ⊢
     simp only [clearRrs, M.modify_apply] at hcur ⊢
     refine ⟨hA.edns, hA.tsig, hA.signed, rfl, hA.qd, rfl, rfl, ?_, hA.lim, hA.res, hcur, hA.buf, hA.mode⟩
@@ -506,7 +520,7 @@ theorem absNum_step (ss : Session) (op : Op) (a a' : Message.AState) (d : Messag
   | setEdns p =>
     have hok' : (setEdns p ss.w).1 = .ok () := by rw [← liftW_fst]; exact hok
     have hw : (step ss (.setEdns p)).2.w = (setEdns p ss.w).2 := liftW_w ss _
-    rw [hw] at hcur ⊢
+    rw [hw]
     simp only [Driver.toSpecOp, Message.absOk] at habs
     split at habs
     · cases habs
@@ -539,7 +553,7 @@ theorem absNum_step (ss : Session) (op : Op) (a a' : Message.AState) (d : Messag
   | setTsig m rr =>
     have hok' : (setTsig m rr ss.w).1 = .ok () := by rw [← liftW_fst]; exact hok
     have hw : (step ss (.setTsig m rr)).2.w = (setTsig m rr ss.w).2 := liftW_w ss _
-    rw [hw] at hcur ⊢
+    rw [hw]
     obtain ⟨_, _, h6, h6'⟩ := hop
     simp only [Driver.toSpecOp, Message.absOk] at habs
     split at habs
@@ -584,7 +598,7 @@ theorem absNum_step (ss : Session) (op : Op) (a a' : Message.AState) (d : Messag
   | updateTimeSigned t =>
     have hok' : (updateTimeSigned t ss.w).1 = .ok () := by rw [← liftW_fst]; exact hok
     have hw : (step ss (.updateTimeSigned t)).2.w = (updateTimeSigned t ss.w).2 := liftW_w ss _
-    rw [hw] at hcur ⊢
+    rw [hw]
     simp only [Driver.toSpecOp, Message.absOk] at habs
     cases hat : a.tsig with
     | none => rw [hat] at habs; cases habs
